@@ -28,6 +28,13 @@ var c06Universe = []string{
 	"a/x", "a/a", "a-/x", "a./x", "ad/x", "d/x", "d/a(", "a b/x", "a(/x", "d/d-old",
 }
 
+func init() {
+	// one path longer than 255 bytes, one that is not valid UTF-8, one non-ASCII (their lengths in bytes, runes and mod 256 differ)
+	c06Universe = append(c06Universe, "d/"+strings.Repeat("L", 130)+"/"+strings.Repeat("M", 130), "a/r\xe9sum\xe9", "d/caf\u00e9")
+}
+
+var _ = 0
+
 // queries: every universe path, every directory prefix, plus names that are in no set.
 func c06Queries() []string {
 	set := map[string]bool{}
@@ -49,8 +56,35 @@ func c06Queries() []string {
 }
 
 type c06Case struct {
-	Insert []string `json:"insert"` // insertion order
-	Delete string   `json:"delete,omitempty"`
+	Insert []string `json:"-"` // insertion order
+	Delete string   `json:"-"`
+}
+
+// paths may be invalid UTF-8: they are saved base64-encoded
+type c06JSON struct {
+	Insert [][]byte `json:"insert_b64"`
+	Delete []byte   `json:"delete_b64,omitempty"`
+}
+
+func (c c06Case) MarshalJSON() ([]byte, error) {
+	j := c06JSON{Delete: []byte(c.Delete)}
+	for _, p := range c.Insert {
+		j.Insert = append(j.Insert, []byte(p))
+	}
+	return json.Marshal(j)
+}
+
+func (c *c06Case) UnmarshalJSON(b []byte) error {
+	var j c06JSON
+	if err := json.Unmarshal(b, &j); err != nil {
+		return err
+	}
+	c.Delete = string(j.Delete)
+	c.Insert = nil
+	for _, p := range j.Insert {
+		c.Insert = append(c.Insert, string(p))
+	}
+	return nil
 }
 
 func idFor(p string) string { return gitfmt.HashObject("blob", []byte(p)) }
